@@ -489,6 +489,33 @@ func init() {
 							why = fmt.Sprintf("cleanup closure: captures file=%v closes=%v removes=%v", captures, hasClose, hasRemove)
 							continue
 						}
+						// the file is removed on every path on which the closure reports success
+						removeSet := map[ssa.Instruction]bool{}
+						eachCall(cf, func(ci ssa.CallInstruction) {
+							if f := calleeFunc(ci); f != nil && f.FullName() == "os.Remove" {
+								removeSet[ci] = true
+							}
+						})
+						skips := false
+						for _, ret := range returnsOf(cf) {
+							cei := errorResultIndex(cf.Signature)
+							if cei >= 0 {
+								v := retVal(ret, cei)
+								if v != nil && (definitelyNonNilError(v) || nonNilByGuard(cf, ret, v)) {
+									continue
+								}
+								if c2, ok := v.(*ssa.Call); ok && removeSet[c2] {
+									continue
+								}
+							}
+							if _, reach := reachAfter(cf, nil, ret, nil, removeSet); reach {
+								skips = true
+							}
+						}
+						if skips {
+							why = "the cleanup closure can report success without having removed the spill file (an error of Close answered with `return nil` leaves the file on disk)"
+							continue
+						}
 						// every success return after the call passes the registration
 						bad := false
 						for _, ret := range returnsOf(fn) {
